@@ -106,6 +106,12 @@ def build(case):
         from sparseSpACE.Grid import GlobalTrapezoidalGrid
         from sparseSpACE.ErrorCalculator import ErrorCalculatorSingleDimVolumeGuided
         grid = GlobalTrapezoidalGrid(a, b, boundary=case["boundary"])
+        if case.get("dwgrid", "trapezoidal") == "highorder":
+            from sparseSpACE.Grid import GlobalHighOrderGrid
+            grid = GlobalHighOrderGrid(a, b, boundary=True, max_degree=3)
+        elif case.get("dwgrid") == "lagrange":
+            from sparseSpACE.Grid import GlobalLagrangeGrid
+            grid = GlobalLagrangeGrid(a, b, boundary=True, p=2)
         op = Integration(f, grid=grid, dim=dim, reference_solution=ref, print_level=drive.Q, log_level=drive.Q)
         sa = SpatiallyAdaptiveSingleDimensions2(a, b, operation=op, version=case["version"], rebalancing=case["rebalancing"],
                                                 margin=case.get("margin", 0.9), rebalancing_safety_factor=case.get("safety", 0.1),
@@ -306,6 +312,8 @@ def run(case):
     out.cls("integrand-scale=%g" % case.get("fscale", 1.0))
     if kind == "es":
         out.cls("automatic_extend_split=%s" % bool(case.get("auto", False)))
+    if kind == "dw":
+        out.cls("dwgrid=" + case.get("dwgrid", "trapezoidal"))
     out.cls("kind=" + kind, "version=%d" % case["version"], "function=" + case["function"], "estimator=" + case.get("estimator", "library"))
     out.info = dict(max_history_len=len(N), max_interruptions=len(ks), max_points=N[-1])
     return out
@@ -334,6 +342,11 @@ def _strategy(kind):
                          margin=draw(st.sampled_from([0.9, 0.9, 0.5, 1.0, 0.0])), safety=draw(st.sampled_from([0.1, 0.1, 0.0, 0.0, 0.3])))
                 if c["estimator"] == "target":
                     c["maxev"] = draw(st.integers(30, 120))     # one interval per step: keep the history short
+                # the quadrature grid of the operation differs from the strategy's internal trapezoidal surplus grid
+                c["dwgrid"] = draw(st.sampled_from(["trapezoidal", "trapezoidal", "trapezoidal", "highorder", "lagrange"]))
+                if c["dwgrid"] != "trapezoidal":
+                    c["boundary"] = True
+                    c["maxev"] = min(c["maxev"], 120)
             elif kind == "cell":
                 c.update(lmin=draw(st.integers(1, 2)), version=0, maxev=draw(st.integers(30, 300)))
                 c["lmax"] = c["lmin"]
